@@ -238,3 +238,23 @@ package ipfsproxy
 //@   requires cfg != nil
 //@   at_call Config.applyJSONConfig assert [defaults-first] defaultsN == old(defaultsN) + 1
 //@   modifies *
+
+// ---- "relays every other request - any method, path, query and body - ... unchanged": the HTTP server that serves the
+// proxy is built with the limits the configuration gives, each from the setting of the same name (a body that is
+// read under the header timeout is cut short before it is relayed) ----
+//@ extern http.Server.SetKeepAlivesEnabled(v)
+//@   modifies nothing
+//@ func slashHandler
+//@   property C12
+//@   modifies nothing
+//@ func New
+//@   property C12
+//@   requires cfg != nil
+//@   loop 1 (range cfg.ListenAddr)
+//@     invariant true
+//@   at_call http.Server.SetKeepAlivesEnabled assert [server-read-timeout] self.ReadTimeout == cfg.ReadTimeout
+//@   at_call http.Server.SetKeepAlivesEnabled assert [server-read-header-timeout] self.ReadHeaderTimeout == cfg.ReadHeaderTimeout
+//@   at_call http.Server.SetKeepAlivesEnabled assert [server-write-timeout] self.WriteTimeout == cfg.WriteTimeout
+//@   at_call http.Server.SetKeepAlivesEnabled assert [server-idle-timeout] self.IdleTimeout == cfg.IdleTimeout
+//@   at_call http.Server.SetKeepAlivesEnabled assert [server-max-header-bytes] self.MaxHeaderBytes == cfg.MaxHeaderBytes
+//@   modifies *
